@@ -516,10 +516,7 @@ Theorem C16_deadline_shard : forall d sh t,
         cancelled d t' = false /\ tsearch_shard None t sh = TSR r t')
   /\ (expires_before d t sh = false -> tsearch_shard d t sh = natural t sh)
   /\ (expires_before d t sh = true -> delivered_answer d t sh = false).
-Proof.
-  intros d sh t. split; [exact (shard_cancelled d sh t)|]. split; [exact (shard_decisive_natural d sh t)|].
-  split; [exact (shard_not_expired d sh t) | exact (expired_not_delivered d t sh)].
-Qed.
+Proof. exact deadline_shard. Qed.
 Print Assumptions C16_deadline_shard.
 
 (* searchStores' receive loop over the ShardResponses in arrival order (by time; ties by the scheduler): a
